@@ -515,6 +515,89 @@ func TestC17(t *testing.T) {
 				}
 			}
 		}
+		// decoys: next to each extension of a carrier, an extension whose identifier is a *relative* of it - first arc
+		// changed, last arc +-1, an arc shifted by a machine-word multiple - with another value (an empty SEQUENCE, not
+		// critical), once in front of everything and once behind. Looking extensions up by identifier must not turn
+		// into looking them up by position, however identifiers are compared.
+		for _, bi := range baseIdx {
+			o := co.Certs[bi]
+			pc, ok := gen.ParseCert(o.DER)
+			v0, err := gen.ViewCert(o.DER)
+			if !ok || err != nil || v0.Extensions() == nil {
+				continue
+			}
+			has := map[string]bool{}
+			dup := false
+			for _, x := range v0.Extensions().Children {
+				if len(x.Children) > 0 {
+					dup = dup || has[string(x.Children[0].Content)]
+					has[string(x.Children[0].Content)] = true
+				}
+			}
+			if dup {
+				continue
+			}
+			for xi, x := range v0.Extensions().Children {
+				if len(x.Children) < 2 {
+					continue
+				}
+				arcs := dt.DecodeOID(x.Children[0].Content)
+				if len(arcs) < 3 {
+					continue
+				}
+				var rel [][]int
+				for a := 0; a <= 2; a++ {
+					if a != arcs[0] && (a == 2 || arcs[1] < 40) {
+						r := append([]int{}, arcs...)
+						r[0] = a
+						rel = append(rel, r)
+					}
+				}
+				for _, d := range []int{-1, 1} {
+					r := append([]int{}, arcs...)
+					if r[len(r)-1]+d >= 0 {
+						r[len(r)-1] += d
+						rel = append(rel, r)
+					}
+				}
+				if ar := gen.ArithRelatives(arcs); len(ar) > 0 {
+					rel = append(rel, ar[0], ar[len(ar)-1])
+				}
+				rel = append(rel, append(append([]int{}, arcs...), 0), arcs[:len(arcs)-1])
+				for ri, r := range rel {
+					decoy := gen.MakeExt(r, false, dt.Seq())
+					if has[string(decoy.Children[0].Content)] {
+						continue
+					}
+					k++
+					if !stats.Mine(k) {
+						continue
+					}
+					mk := func(front bool) []byte {
+						v, _ := gen.ViewCert(o.DER)
+						e := v.Extensions()
+						if front {
+							e.Children = append([]*dt.Node{decoy.Clone()}, e.Children...)
+						} else {
+							e.Children = append(e.Children, decoy.Clone())
+						}
+						if pc.SelfSigned {
+							v.SelfSign()
+						}
+						return v.DER()
+					}
+					done++
+					c := c17Case{DER: mk(false), DER2: mk(true), What: "extensions", Base: o.Name, Names: []string{fmt.Sprintf("decoy %v (relative #%d of extension #%d %v) last / first", r, ri, xi, arcs)}}
+					rec.Eval()
+					rec.Class("extension_decoys_enumerated")
+					if sig, msg := judgeC17(rec, c); msg != "" {
+						if rec.Report("c17", sig, msg, c) {
+							t.Fatalf("c17 %s + decoy %v: %s: %s", o.Name, r, sig, msg)
+						}
+					}
+				}
+			}
+		}
 		rec.Note("extension-crossover", fmt.Sprintf("%d carrier certificates x %d donor extensions (%d extension types); %d cases in this shard", len(baseIdx), len(donors), len(oids), done))
 		rec.Exhaustive("extension crossover (donor first vs last)", true)
 	}
